@@ -107,6 +107,7 @@ type World struct {
 	Dead  string            // non-empty after a panic or hang: the instance must not be used any more
 	Trace []Step
 	apps  []*objects.Application
+	late  map[string]func() // expired state timer callbacks that have not run yet (TIMER_STATE_EXPIRE / TIMER_STATE_LATE)
 }
 
 func settle(limit time.Duration) bool {
@@ -280,6 +281,11 @@ func (w *World) Enabled() []Op {
 			if len(a.Resize) > 0 && !m.Resized[a.Key] && (ks.State == "ask" || ks.State == "bound") {
 				add(Op{K: "ASK_RESIZE", A: a.Key})
 			}
+			if a.BindNode != "" && ks.State == "ask" {
+				if _, ok := m.Nodes[a.BindNode]; ok {
+					add(Op{K: "ASK_BIND", A: a.Key})
+				}
+			}
 		}
 	}
 	for _, k := range sortedKeys(m.Keys) {
@@ -337,8 +343,14 @@ func (w *World) Enabled() []Op {
 			}
 			if t.st {
 				add(Op{K: "TIMER_STATE", A: t.id})
+				if w.late[t.id] == nil {
+					add(Op{K: "TIMER_STATE_EXPIRE", A: t.id})
+				}
 			}
 		}
+	}
+	for _, id := range sortedKeys(w.late) {
+		add(Op{K: "TIMER_STATE_LATE", A: id})
 	}
 	for i := range s.Configs {
 		if i != m.Config {
@@ -633,11 +645,47 @@ func (w *World) Apply(op Op) *Step {
 		if m.Keys[a.Key].State != "bound" {
 			node = ""
 		}
+		bound := node != ""
+		if a.ResizeNoNode {
+			node = ""
+		}
 		f = func() { w.sendAlloc([]*si.Allocation{w.askToSI(a, a.Resize, node)}, nil) }
 		m.Resized[a.Key] = true
-		if node != "" {
-			w.Mem["forced:"+node] = "1"
+		if bound {
+			w.Mem["forced:"+m.Keys[a.Key].Node] = "1"
 			w.Mem["forcedq:"+a.App] = "1"
+		}
+	case "ASK_BIND":
+		a := s.Ask(op.A)
+		res := a.Res
+		if m.Resized[a.Key] {
+			res = a.Resize
+		}
+		f = func() { w.sendAlloc([]*si.Allocation{w.askToSI(a, res, a.BindNode)}, nil) }
+		m.Keys[a.Key].State = "bound"
+		m.Keys[a.Key].Node = a.BindNode
+		w.Mem["forced:"+a.BindNode] = "1"
+		w.Mem["forcedq:"+a.App] = "1"
+	case "TIMER_STATE_EXPIRE":
+		f = func() {
+			if app := w.findApp(op.A); app != nil {
+				if cb := app.VerifExpireStateTimer(); cb != nil {
+					if w.late == nil {
+						w.late = map[string]func(){}
+					}
+					w.late[op.A] = cb
+					w.Mem["late-timer:"+op.A] = app.CurrentState()
+				}
+			}
+		}
+	case "TIMER_STATE_LATE":
+		cb := w.late[op.A]
+		delete(w.late, op.A)
+		delete(w.Mem, "late-timer:"+op.A)
+		f = func() {
+			if cb != nil {
+				cb()
+			}
 		}
 	case "RELEASE":
 		ks := m.Keys[op.A]
